@@ -2698,6 +2698,11 @@ namespace bloch::compiler {
     void SemanticAnalyser::visit(VoidType&) {}
 
     void SemanticAnalyser::visit(Parameter& node) {
+        // Shared by function, method and constructor parameter lists.
+        if (typeFromAst(node.type.get()).value == ValueType::Void) {
+            throw BlochError(ErrorCategory::Semantic, node.line, node.column,
+                             "parameters cannot have type 'void'");
+        }
         if (node.type)
             node.type->accept(*this);
     }
@@ -3073,10 +3078,6 @@ namespace bloch::compiler {
                                  "'" + param->name + "' is already declared in this scope");
             }
             TypeInfo pt = typeFromAst(param->type.get());
-            if (pt.value == ValueType::Void) {
-                throw BlochError(ErrorCategory::Semantic, param->line, param->column,
-                                 "parameters cannot have type 'void'");
-            }
             declare(param->name, false, pt);
             param->accept(*this);
         }
